@@ -58,6 +58,23 @@ func (ex *exec) execAssign(st *State, s *ast.AssignStmt) {
 			ex.fail(s.Pos(), "multi-value assignment from non-call")
 		}
 		vals = tv
+		// Montgomery reduction discards a low word that is zero by construction:
+		// try to establish that as a lemma (sound either way: used only if proved).
+		if ex.mode == ModeInt && len(tv) == 2 {
+			if id, ok := s.Lhs[0].(*ast.Ident); ok && id.Name == "_" {
+				if c, ok := s.Rhs[0].(*ast.CallExpr); ok {
+					if sel, ok := c.Fun.(*ast.SelectorExpr); ok && sel.Sel.Name == "Add64" {
+						if t, ok := tv[0].(*Term); ok && !t.IsConst() {
+							ex.lemmaDepth = 3
+							if ex.lemma(st, Eq(t, IntC64(0)), "dropped-word-zero", s.Pos()) {
+								st.assume(Eq(t, IntC64(0)))
+							}
+							ex.lemmaDepth = 0
+						}
+					}
+				}
+			}
+		}
 	} else {
 		for i, r := range s.Rhs {
 			var want types.Type
@@ -465,7 +482,7 @@ func (ex *exec) makeSlice(st *State, elem types.Type, n, c *Term, pos token.Pos)
 		} else {
 			z = ex.intConst(elem, big.NewInt(0))
 		}
-		st.heap[o] = ConstArr(ArrSort(ex.idxSort(), es), z)
+		st.heap[o] = ConstArr(ex.arrSort(elem), z)
 	} else {
 		if !c.IsConst() {
 			ex.fail(pos, "make of non-scalar slice with symbolic length")
